@@ -1220,7 +1220,7 @@ class Interp:
             except ContinueEx:
                 pass
             return None
-        res = explore(thunk, outer_ax)
+        res = explore(thunk, outer_ax, nested=True)
         n0 = len(outer_pc) + 1
         normal = []
         for r in res:
@@ -1234,6 +1234,40 @@ class Interp:
         if cond is False:
             cond = z3.BoolVal(False)
         return z3.ForAll([j], z3.Implies(z3.And(j >= 0, j < to_z3(hi)), cond))
+
+    def explore_at(self, fn, lo=0, hi=None, tag='gen'):
+        """run fn(sub_interp, j) at a symbolic position j in [lo, hi) in a nested exploration under the current path
+        condition; returns (j, [(condition over j, ('return', value) | ('raise', exc))])"""
+        from .run import explore
+        self._gen = getattr(self, '_gen', 0) + 1
+        j = z3.Int(f'j!{tag}{self._gen}')
+        outer_pc = list(self.run.pc)
+        outer_ax = list(self.run.axioms)
+
+        def thunk(run2):
+            sub = Interp(self.P, run2, self.theory, self.contracts, self.loop_specs, self.call_hook)
+            sub.depth = self.depth
+            sub.modcache = self.modcache
+            sub.obl_prefix = getattr(self, 'obl_prefix', '')
+            sub.cur_name = self.cur_name
+            run2._S = getattr(self.run, '_S', None)
+            for p in outer_pc:
+                run2.pc.append(p)
+            rng = z3.And(j >= to_z3(lo), j < to_z3(hi)) if hi is not None else (j >= to_z3(lo))
+            run2.pc.append(rng)
+            return fn(sub, j)
+        res = explore(thunk, outer_ax, nested=True)
+        n0 = len(outer_pc) + 1
+        out = []
+        for r in res:
+            if r.outcome[0] == 'unsupported':
+                raise Unsupported(r.outcome[1])
+            if r.outcome[0] == 'end':
+                continue
+            for ob in r.obligations:
+                self.run.obligations.append(ob)      # obligations met at the generic position stay obligations
+            out.append((z_and(*r.pc[n0:]), r.outcome))
+        return j, out
 
     # ---------------------------------------------------------------- iteration helpers
     def iter_concrete(self, v, expect=None):
